@@ -359,11 +359,15 @@ class Adapter:
         return f"logs/{name}"
 
     def expect_contains(self, model, q):
-        """`q in store`: a record (either kind) is stored under that relative identifier — as it is, or (directory
-        store) with the store suffix added when q does not end in it (an identifier may itself end in .json / .log)"""
+        """`q in store`: a record (either kind) is stored under that relative identifier; the directory store adds its
+        suffix to a name that has neither the store suffix nor a special (.json / .log) one. None = not demanded: a
+        name ending in .json / .log that is not a stored name could be a not-completed / log file name or an
+        identifier with such a tail (`sample.json` -> sample.json.tsv); the store's API cannot tell them apart"""
         if q in model.C or q in model.N:
             return True
         if self.store == "dir" and not q.endswith(f".{SUFFIX}"):
+            if q.endswith(".json") or q.endswith(".log"):
+                return None
             return f"{q}.{SUFFIX}" in model.C
         return False
 
@@ -589,7 +593,7 @@ def differences(exp, got, A, target, payload, prev, no_change_expected=False):
                 out.append((2, "alien-log"))
     if not out and got["validate"] != exp.validate():
         out.append((7, "validate-disagrees"))
-    wrong = [q for q, ans in got.get("contains", []) if q not in A.excused and A.expect_contains(exp, q) != ans]
+    wrong = [q for q, ans in got.get("contains", []) if q not in A.excused and A.expect_contains(exp, q) not in (None, ans)]
     if not out and wrong:
         out.append((7, "contains-disagrees"))
         # `in` is a function of the state, not something a resync can adopt: report an identifier once per history
@@ -1160,9 +1164,9 @@ def gen_cases(rng, tier):
                 cases.append({**c, "session": "rotate", "rot": rng.randrange(3), "every": 3})
             else:
                 cases.extend({**c, "session": s_} for s_ in SESSIONS)
-        if tier != "quick":
-            for _ in range(6):
-                cases.append({"kind": "random", "store": st, "suffix": sfx, "front": app, "ids": ids, "seed": rng.randrange(2**32), "n": 50, "maxlen": 25, "profile": "given"})
+        for _ in range(1 if tier == "quick" else 6):
+            c = {"kind": "random", "store": st, "suffix": sfx, "front": app, "ids": ids, "seed": rng.randrange(2**32), "profile": "given"}
+            cases.append({**c, "n": 12, "maxlen": 15} if tier == "quick" else {**c, "n": 50, "maxlen": 25})
     nrand = 32 if tier == "quick" else 480
     per = 20 if tier == "quick" else 50
     maxlen = 15 if tier == "quick" else 25
